@@ -435,7 +435,12 @@ def gen_dop_value(rng, dop, siblings=None, sib_params=None):
     if isinstance(dop, D.EopField):
         lo = dop.min or 0
         hi = dop.max if dop.max is not None else lo + 3
-        return _with_duplicates(rng, [gen_params_value(rng, dop.item.params) for _ in range(rng.randint(lo, min(hi, lo + 3)))])
+        n = rng.randint(lo, min(hi, lo + 3))
+        if dop.max is not None and rng.random() < 0.25:
+            # more items than MAX-NUMBER-OF-ITEMS: whatever the encoder accepts must decode back (an encoder that ignores the limit next to
+            # a decoder that honours it is a round-trip failure)
+            n = dop.max + rng.randint(1, 2)
+        return _with_duplicates(rng, [gen_params_value(rng, dop.item.params) for _ in range(n)])
     if isinstance(dop, D.Mux):
         choices = [("case", c) for c in dop.cases]
         if dop.default is not None:
